@@ -291,6 +291,13 @@ func (e *End) Close() error {
 // Closed reports whether Close was called on this end.
 func (e *End) Closed() bool { return e.closed.Load() }
 
+// PeerClosed reports whether the other end of the pair has been closed.
+func (e *End) PeerClosed() bool {
+	e.w.mu.Lock()
+	defer e.w.mu.Unlock()
+	return e.w.rclosed
+}
+
 // CloseWrite half closes: the peer sees EOF after draining, reads still work.
 func (e *End) CloseWrite() error {
 	e.w.mu.Lock()
